@@ -16,6 +16,8 @@ FragsV == { <<"ta">>, <<"ta", "1">>, <<"ta", "1", "r">>, <<"ta", "1", "rs">>, <<
 FieldsV == { <<>>, [ta |-> <<"x">>], [ta |-> <<"x", "y", "r">>], [ta |-> <<"x", "x">>], [ta |-> <<>>],
              [ta |-> <<"id", "zz">>], [ta |-> <<"id">>], [ta |-> <<"id", "x", "id">>], [tb |-> <<"id", "id">>], [tb |-> <<"z">>], [zz |-> <<"a">>], [tc |-> <<"id">>],
              [ta |-> <<"rs", "r">>, tb |-> <<"q", "z", "zz">>], [tc |-> <<"zz">>], [tb |-> <<"z", "s", "z">>], [td |-> <<"q", "w">>, tb |-> <<"z">>],
+             \* two names that differ by their case only, in both orders
+             [ta |-> <<"X", "x">>], [ta |-> <<"x", "y", "X">>, tb |-> <<"z">>], [ta |-> <<"x", "X", "x">>],
              \* each list names a field of the other type
              [ta |-> <<"x", "z">>, tb |-> <<"z", "x">>], [ta |-> <<"q">>, tb |-> <<"r", "y">>, td |-> <<"x", "w">>] }
 SortV == { <<>>, <<Rule("x", FALSE)>>, <<Rule("x", TRUE)>>, <<Rule("id", FALSE)>>, <<Rule("id", TRUE), Rule("x", FALSE)>>,
@@ -24,6 +26,7 @@ SortV == { <<>>, <<Rule("x", FALSE)>>, <<Rule("x", TRUE)>>, <<Rule("id", FALSE)>
            <<Rule("y", TRUE), Rule("x", FALSE)>>, <<Rule("z", FALSE), Rule("id", FALSE), Rule("z", TRUE)>>,
            <<Rule("r", FALSE)>>, <<Rule("x", FALSE), Rule("y", FALSE), Rule("x", FALSE)>>,
            <<Rule("y", FALSE), Rule("y", TRUE), Rule("y", FALSE)>>, <<Rule("z", FALSE), Rule("z", FALSE)>>, <<Rule("-x", TRUE)>>, <<Rule("-id", TRUE)>>, <<Rule("-", TRUE), Rule("y", FALSE)>>, <<Rule("x", FALSE), Rule("y", FALSE), Rule("x", FALSE), Rule("y", FALSE), Rule("id", FALSE)>>,
+           <<Rule("X", FALSE), Rule("x", TRUE)>>, <<Rule("x", FALSE), Rule("X", FALSE), Rule("x", TRUE)>>,
            \* rules made of white space only
            <<Rule("x", FALSE), Rule(" ", FALSE)>>, <<Rule(" ", FALSE)>>, <<Rule(" ", TRUE), Rule("y", FALSE)>> }
 InclV == { <<>>, <<<<"r">>>>, <<<<"rs">>>>, <<<<"r">>, <<"rs">>>>, <<<<"rs">>, <<"r">>>>, <<<<"zz">>, <<"yy">>>>,
